@@ -5,6 +5,7 @@ mod replay;
 #[cfg(feature = "it_deser")]
 mod roundtrip;
 mod sim;
+#[cfg(feature = "it_threads")]
 mod threads;
 mod tracked;
 
@@ -91,6 +92,7 @@ fn main() {
         }
         "record" => record::run(&args),
         "print" => print::run(&args),
+        #[cfg(feature = "it_threads")]
         "threads" => threads::run(&args),
         "features" => {
             let mut f = Vec::new();
